@@ -25,7 +25,8 @@ fn pool() -> Vec<MapSpec> {
         std(0),
         std(1),
         std(2),
-        MapSpec::new(3, vec![o(Kind::Circle, 0, PosK::Same, 0, 0), o(Kind::Hold(300), 150, PosK::Same, 0, 2), o(Kind::Circle, 100, PosK::Same, 0, 1), o(Kind::Hold(100), 100, PosK::Same, 0, 0), o(Kind::Circle, 90, PosK::Same, 0, 2)]),
+        // mania: chords (equal start times in different columns), holds overlapping notes
+        MapSpec::new(3, vec![o(Kind::Circle, 0, PosK::Same, 0, 0), o(Kind::Circle, 0, PosK::Same, 0, 1), o(Kind::Circle, 0, PosK::Same, 0, 2), o(Kind::Hold(300), 150, PosK::Same, 0, 2), o(Kind::Circle, 0, PosK::Same, 0, 0), o(Kind::Circle, 100, PosK::Same, 0, 1), o(Kind::Hold(100), 100, PosK::Same, 0, 0), o(Kind::Circle, 0, PosK::Same, 0, 1), o(Kind::Circle, 90, PosK::Same, 0, 2), o(Kind::Circle, 0, PosK::Same, 0, 0)]),
         // tie-heavy timing
         MapSpec { timing: Timing::T2, ..std(0) },
         // same shape as #0, different positions / sounds / difficulty: collides with anything keyed by counts only
@@ -59,6 +60,8 @@ enum Kind1 {
     ReuseBuilders(u8),
     /// the same map under a different conversion-relevant mod: mania by reference with the given key count
     ManiaKeys(u8),
+    /// mania under a mod that rebuilds the object list inside the calculation: 0 Invert, 1 HoldOff, 2 HoldOff + Invert
+    ManiaRebuild(u8),
     /// two gradual calculators (this map and the partner map, both for the given target mode) stepped alternately on this
     /// thread: each must yield what it yields when walked alone
     LockStep(u8, u8),
@@ -113,6 +116,11 @@ fn all_ops(specs: &[MapSpec], rich: bool) -> Vec<Op> {
         if s.mode == 0 {
             for k in if rich { vec![1u8, 4, 7, 9] } else { vec![4u8, 7] } {
                 v.push(Op { text: t, kind: Kind1::ManiaKeys(k) });
+            }
+        }
+        if s.mode == 3 || ti == 0 {
+            for i in 0..3u8 {
+                v.push(Op { text: t, kind: Kind1::ManiaRebuild(i) });
             }
         }
         // partner = the next map that can reach the same target mode
@@ -189,6 +197,14 @@ impl World {
                 let st = api::strains(&d, map, 3);
                 let p = Performance::new(map).mods(bits).try_mode(gen::game_mode(3)).ok().map(|p| p.accuracy(98.0).calculate());
                 format!("{conv:?} {a:?} {st:?} {p:?}")
+            }
+            Kind1::ManiaRebuild(i) => {
+                let spec = [ModSpec::Invert, ModSpec::HoldOff, ModSpec::HoIn(None)][usize::from(i)].clone();
+                let d = Difficulty::new().mods(spec.build(gen::game_mode(3)));
+                let a = api::difficulty(&d, map, 3);
+                let st = api::strains(&d, map, 3);
+                let g: Option<Vec<_>> = api::gradual(d, map, 3).ok().map(Iterator::collect);
+                format!("{a:?} {st:?} {g:?}")
             }
             Kind1::LockStep(m, partner) => {
                 let d = self.setts[1].difficulty(gen::game_mode(m));
